@@ -598,6 +598,11 @@ def f_cyc():
     ("a2", "comb", [("=", ref("P2"), ref("o2")), ("=", ref("out"), ("bin", "^", ref("R2"), ref("o2")))]),
     ("b2", "comb", [("=", ref("R2"), ("bin", "+", ref("P2"), c(2, 3)))])]), "false"
 
+  # an update_once member in a cycle that passes through a CONNECTION (a generated net block is a member of the group)
+  sgn = [("P", "wire", B(2), ()), ("P2", "wire", B(2), ()), ("R", "wire", B(2), ())]
+  An = ("blkA", "comb", [("=", ref("P"), ("bin", "+", ref("in_", ("s", 0, 2)), ref("R"))), ("=", ref("out"), ("un", "~", ref("R")))])
+  Bn = ("blkB", "once", [("=", ref("R"), ("bin", "^", ref("P2"), ref("in_", ("s", 2, 4))))])
+  yield "cyc:once-net", comp("CycON", ins + sgn, blocks=[An, Bn], connects=[(ref("P2"), ref("P"))]), "once"
   # loops inside ONE block: a block that reads the signal it writes
   i2 = ref("in_", ("s", 0, 2))
   yield "cyc:self-diverge", comp("CycSD", ins + [("X", "wire", B(2), ())], blocks=[
